@@ -949,6 +949,17 @@ class CallsMixin:
         mod = c.key.split(":")[0]
         for gname, gsh in c.ghost_params.items():
             env[gname] = V.fresh(gsh, "g_" + gname)
+        for gname, gsh in c.ghost_results.items():
+            env[gname] = V.fresh(gsh, gname)
+            st.assume(Q.deep_wf(self, env[gname]))
+        saved_reindex = getattr(self, "reindex", None)
+        self.reindex = [v.view[1] for v in env.values() if isinstance(v, Val) and v.view is not None] or None
+        try:
+            return self._apply_contract(c, bound, st, env, mod)
+        finally:
+            self.reindex = saved_reindex
+
+    def _apply_contract(self, c, bound, st, env, mod):
         for name, text in c.requires:
             goal = self.truth(self.spec_eval(text, env, st, mod, c), st)
             self.ctx.oblige(f"L{self.cur_line}/call:{c.name}/{name}", st, goal, kind="call-pre")
@@ -987,6 +998,7 @@ class CallsMixin:
             if w is not None:
                 lv = self.spec_eval(c.logs, env, st, mod, c)
                 st.holder("_warnings").vars["_warnings"] = V.vint(w.d + self._int(self.as_sym(lv)))
+        self.last_ghost_results = {g: env[g] for g in c.ghost_results}
         return res
 
     def narrow(self, v: Val, sh, st, c, p):
